@@ -98,13 +98,15 @@ pub struct Gen<'a> {
     /// maximum number of elements of the top group / of nested groups
     pub max_top: usize,
     pub max_nested: usize,
+    /// top-level ORDER BY may use variables that are not projected (C01 judges those)
+    pub hidden_order_keys: bool,
 }
 
 const POOL: [&str; 5] = ["a", "b", "c", "d", "e"];
 
 impl<'a> Gen<'a> {
     pub fn new(r: &'a mut Rng, ds: &Dataset, n_ent: usize, n_pred: usize, n_num: usize) -> Gen<'a> {
-        Gen { r, n_ent, n_pred, n_num, graphs: ds.graphs.iter().cloned().collect(), features: BTreeSet::new(), fresh: 0, max_depth: 3, allow_edge: true, max_top: 4, max_nested: 3 }
+        Gen { r, n_ent, n_pred, n_num, graphs: ds.graphs.iter().cloned().collect(), features: BTreeSet::new(), fresh: 0, max_depth: 3, allow_edge: true, max_top: 4, max_nested: 3, hidden_order_keys: false }
     }
 
     fn fresh(&mut self, p: &str) -> String {
@@ -571,6 +573,14 @@ impl<'a> Gen<'a> {
         let cols = q.columns();
         if top {
             if !cols.is_empty() && self.r.chance(3, 10) {
+                // keys among the projected columns; for a plain projection sometimes among all
+                // variables in scope (a key that is not projected)
+                let hidden = self.hidden_order_keys && !agg && !q.distinct && matches!(q.proj, Proj::Items(_)) && self.r.chance(1, 3);
+                let cols: Vec<String> = if hidden { vars.iter().map(|(k, _)| k.clone()).collect() } else { cols.clone() };
+                let out = if hidden { sc.clone() } else { out.clone() };
+                if hidden {
+                    self.features.insert("order_key_not_projected".into());
+                }
                 let nk = self.r.range(1, 2.min(cols.len()));
                 let mut ks: Vec<String> = vec![];
                 while ks.len() < nk {
